@@ -4,6 +4,7 @@ import ast
 from ..core import Property, AnalysisError, unparse, norm, walk_no_nested, fold, NotConst
 from ..sym import Interp, S, term, show, subterms, State
 from ..query import parse_chain, queries_in
+from ..dfa import ReachingDefs
 from .. import mut
 
 PROP = Property(
@@ -356,8 +357,14 @@ def path_columns(ctx):
     seen = []
     it.obs_call = lambda name, base, args, kwargs, st_, node: seen.append({k: kwargs.get(k) for k in ('account_id', 'change', 'path')}) if name == 'from_key' else None
     it.frames.append([])
+    # the statements between `n_items = ...` and the loop (loop-invariant derivations hoisted out of it) belong to the scenario
+    block = [b for n in ast.walk(fn) for f in ('body', 'orelse', 'finalbody') for b in [getattr(n, f, None)] if isinstance(b, list) and loops[0] in b]
+    stmts = block[0][:block[0].index(loops[0]) + 1]
+    starts = [i for i, x in enumerate(stmts) if isinstance(x, ast.Assign) and norm(x.targets[0]) == 'n_items']
+    stmts = stmts[starts[-1] + 1:] if starts else stmts[-1:]
     try:
-        it.exec_stmt(loops[0], st)
+        for x in stmts:
+            it.exec_stmt(x, st)
     except AnalysisError as e:
         ctx.undecided('keys_for_path: creation loop not evaluable: %s' % str(e)[:100])
     if len(seen) != 3:
@@ -368,6 +375,92 @@ def path_columns(ctx):
                     "after key_for_path(\"m/84'/0'/3'/0/0\") new_key(account_id=3) keeps returning that same key")
         ctx.require(kw['path'] == '/'.join(full[:4 + i]), q, 'the key at level %d is stored with path %s' % (i + 3, show(term(kw['path']))), loops[0])
     ctx.require(seen[-1]['change'] == 1, q, 'the address key is stored with change %s instead of 1' % show(term(seen[-1]['change'])), loops[0], 'the next-index query of the change chain does not see it')
+    # bulk request whose first key already exists (no level is missing): the remaining keys of the batch carry the same columns
+    it = Interp(ctx.repo, 'wallets', self_cls='wallets:Wallet')
+    top = S(('var', 'topkey'))
+    st = State(env={'self': S(SELF), 'fullpath': list(full), 'n_items': 6, 'account_id': 0, 'ck': S(('var', 'ck')), 'newpath': '/'.join(full), 'name': None, 'parent_id': S(('var', 'pid')),
+                    'purpose': 84, 'encoding': 'bech32', 'witness_type': 'segwit', 'cosigner_id': None, 'network': 'bitcoin', 'change': 0, 'nkey': None, 'new_keys': [top],
+                    'number_of_keys': 3, 'topkey': top})
+    st.heap[A(SELF, 'key_path')] = list(BIP44)
+    bulk = []
+    it.obs_call = lambda name, base, args, kwargs, st_, node: bulk.append({k: kwargs.get(k) for k in ('account_id', 'change', 'path')}) if name == 'from_key' else None
+    it.frames.append([])
+    rest = block[0][block[0].index(loops[0]) + 1:]
+    try:
+        for x in stmts + rest:
+            it.exec_stmt(x, st)
+    except AnalysisError as e:
+        ctx.undecided('keys_for_path: bulk creation after an existing first key not evaluable: %s' % str(e)[:100])
+    if len(bulk) != 2:
+        ctx.undecided('keys_for_path: %d key records created for a batch of 3 whose first key exists' % len(bulk))
+    for i, kw in enumerate(bulk):
+        ctx.saw('batch key %d after an existing first key: account_id=%s change=%s path=%s' % (i + 1, show(term(kw['account_id'])), show(term(kw['change'])), show(term(kw['path']))))
+        ctx.require(kw['path'] == '/'.join(full[:5] + [str(8 + i)]), q, 'batch key %d is stored with path %s' % (i + 1, show(term(kw['path']))), loops[0])
+        ctx.require(kw['change'] == 1, q, 'batch key %s after an existing first key is stored with change %s instead of 1' % (show(term(kw['path'])), show(term(kw['change']))), loops[0],
+                    'the change column is only derived from the path while a missing level is created; new_key_change() then issues the index again')
+        ctx.require(kw['account_id'] == 3, q, 'batch key %s after an existing first key is stored with account_id %s instead of 3' % (show(term(kw['path'])), show(term(kw['account_id']))), loops[0])
+
+
+@PROP.obligation('C09.multisig-columns', canaries=[
+    mut.replace_expr('wallets', 'Wallet.keys_for_path', 'address_index + n', 'address_index', 'every multisig key of a batch stored with the first index'),
+    mut.replace_expr('wallets', 'Wallet.keys_for_path', "int(fullpath[key_path.index('change')])", 'change', 'multisig change column not taken from the path'),
+    mut.replace_expr('wallets', 'Wallet.keys_for_path', "int(fullpath[key_path.index('address_index')])", 'address_index', 'multisig index column not taken from the path'),
+])
+def multisig_columns(ctx):
+    """Wallet._new_key_multisig stores the multisig record with the path of a cosigner key; its change and address_index columns (which the
+    next-index query of new_keys orders and filters on) are read from that same key, or are the arguments - and then keys_for_path derives
+    them from the expanded path and passes a different index for every key of a batch: a record whose path says .../1/7 while its columns
+    say 0/0 makes new_key hand out an existing address again."""
+    q = 'wallets:Wallet._new_key_multisig'
+    fn = ctx.repo.func(q)
+    calls = [c for c in ast.walk(fn) if isinstance(c, ast.Call) and unparse(c.func) == 'DbKey' and any(k.arg == 'path' for k in c.keywords)]
+    if len(calls) != 1:
+        ctx.undecided('_new_key_multisig: DbKey(...) of the multisig record not found')
+    kw = {k.arg: k.value for k in calls[0].keywords}
+    rd = ReachingDefs(fn)
+    nid = rd.node_of_ast(calls[0])
+    plv = rd.leaves(kw['path'], nid)
+    src = sorted(x[1] for x in plv if x[0] == 'attr' and x[1].endswith('.path'))
+    ctx.saw('path column comes from %s' % sorted(str(x) for x in plv if x[0] in ('attr', 'param')))
+    if not src or ('param', 'public_keys') not in plv:
+        ctx.undecided('_new_key_multisig: path column is not taken from one of the cosigner keys')
+    own = src[0][:-len('.path')]
+    kq = 'wallets:Wallet.keys_for_path'
+    kfp = ctx.repo.func(kq)
+    sites = [(l, c) for l in ast.walk(kfp) if isinstance(l, ast.For) for c in ast.walk(l) if isinstance(c, ast.Call) and unparse(c.func) == 'self._new_key_multisig']
+    if not sites:
+        ctx.undecided('keys_for_path: batch loop calling _new_key_multisig not found')
+    krd = ReachingDefs(kfp)
+    params = [a.arg for a in fn.args.args]
+    for col in ('address_index', 'change'):
+        if col not in kw:
+            ctx.violate(q, 'multisig record stored without %s' % col, calls[0])
+            continue
+        lv = rd.leaves(kw[col], nid)
+        ctx.saw('%s column comes from %s' % (col, sorted(str(x) for x in lv if x[0] in ('attr', 'param', 'const'))))
+        if [x for x in lv if x[0] == 'attr' and x[1] == '%s.%s' % (own, col)] and ('param', col) not in lv:
+            continue
+        if ('param', col) not in lv:
+            ctx.unsure('%s: %s column is neither the argument nor read from the key the path comes from' % (q, col))
+            continue
+        for loop, c in sites:
+            pos = params.index(col) - 1
+            arg = c.args[pos] if pos < len(c.args) else next((k.value for k in c.keywords if k.arg == col), None)
+            if arg is None:
+                ctx.violate(kq, 'batch loop does not pass %s to _new_key_multisig' % col, c)
+                continue
+            alv = krd.leaves(arg, krd.node_of_ast(c))
+            from_path = ('call', 'path_expand') in alv
+            assigned = set(t.id for n in ast.walk(loop) for t in ([n.target] if isinstance(n, (ast.AugAssign, ast.For)) else n.targets if isinstance(n, ast.Assign) else [])
+                           for t in ast.walk(t) if isinstance(t, ast.Name))
+            varies = any(isinstance(x, ast.Name) and x.id in assigned for x in ast.walk(arg))
+            ctx.saw('batch loop passes %s=%s (%s, %s)' % (col, norm(arg), 'derived from the expanded path' if from_path else 'the caller argument as is', 'per key' if varies else 'same for every key'))
+            if not from_path:
+                ctx.violate(kq, 'multisig record is stored with %s = the %s argument of keys_for_path (%s) while its path column comes from %s.path of the expanded path' % (col, col, norm(arg), own), c,
+                            'key_for_path([1, 3]) stores the record of m/.../1/3 with change 0 and index 0: new_key() later reaches that address, finds it present and returns the same key for ever')
+            if col == 'address_index' and not varies:
+                ctx.violate(kq, 'every multisig key of a batch is stored with the same address_index (%s)' % norm(arg), c,
+                            'after get_keys(number_of_keys=3) the records m/.../0/0..2 all carry index 0: new_key() computes index 1, finds its address present and returns the existing key again')
 
 
 COLS = {'wallet_id': 'wallet_id', 'purpose': 'purpose', 'account_id': 'account_id', 'change': 'change', 'parent_id': 'parent_id', 'path': 'path', 'key_type': 'key_type',
